@@ -321,7 +321,7 @@ def oracle_(case, obs):
         return [] if out == seen else [{'key': 'wrong-exception', 'detail': '%s vs %s for %s' % (out, seen, sx(t))}]
     why = unprintable(seen)
     if out.startswith('err:'):
-        if degenerate(t):
+        if degenerate(t) or degenerate(seen):
             return []
         if out != 'err:ValueError':
             return [{'key': 'wrong-exception', 'detail': '%s raised by doprint for %s' % (out, sx(t))}]
@@ -624,3 +624,99 @@ def gen(rng, n, tier):
         d = rng.choice([2, 3, 3, 4, 4, 5, 6])
         r = rnd(rng, d) if rng.random() < 0.9 else rnd_bool(rng, min(d, 3))
         yield {'r': r, 'g': 'random/d%d' % d}
+
+
+# ------------------------------------------------------------------------------------------------ model side
+def py_shape(code):
+    """CPython's parse of the emitted string, in the vocabulary of the model's Doc (parentheses leave no trace)"""
+    tree = ast.parse(code, mode='eval').body
+    seg = lambda n: ast.get_source_segment(code, n)
+    BOP = {ast.Add: 'add', ast.Sub: 'sub', ast.Mult: 'mul', ast.Div: 'div', ast.Pow: 'pow'}
+    CMP = {ast.Eq: '==', ast.NotEq: '!=', ast.Lt: '<', ast.LtE: '<=', ast.Gt: '>', ast.GtE: '>='}
+
+    def go(n):
+        if isinstance(n, (ast.Constant, ast.Name, ast.Attribute)):
+            return ['atom', seg(n)]
+        if isinstance(n, ast.Call):
+            return ['call', seg(n.func)] + [go(a) for a in n.args]
+        if isinstance(n, ast.UnaryOp) and isinstance(n.op, ast.USub):
+            return ['neg', go(n.operand)]
+        if isinstance(n, ast.BinOp) and type(n.op) in BOP:
+            return [BOP[type(n.op)], go(n.left), go(n.right)]
+        if isinstance(n, ast.Compare):
+            if len(n.ops) != 1 or type(n.ops[0]) not in CMP:
+                return ['chain'] + [go(x) for x in [n.left] + n.comparators]
+            return ['cmp', CMP[type(n.ops[0])], go(n.left), go(n.comparators[0])]
+        if isinstance(n, ast.BoolOp):
+            acc = go(n.values[0])
+            for v in n.values[1:]:
+                acc = ['and' if isinstance(n.op, ast.And) else 'or', acc, go(v)]
+            return acc
+        if isinstance(n, ast.IfExp):
+            return ['ite', go(n.body), go(n.test), go(n.orelse)]
+        return ['?', type(n).__name__]
+    return go(tree)
+
+
+def plain(x):
+    return [plain(a) for a in x] if isinstance(x, list) else str(x)
+
+
+def has_extra(t):
+    return any(s[0] == 'Fn' and str(s[1]) in EXTRA for s in walk_all(t))
+
+
+def requests(case, obs):
+    if obs.get('built') is None:
+        return []
+    post = obs.get('post')
+    if isinstance(post, str) or post is None:
+        return []
+    return [sx(['C11', 'print', post]), sx(['C11', 'rewrite', obs['built'], post])]
+
+
+def compare(case, obs, replies):
+    if len(replies) != 2:
+        return None
+    rep, rw = replies
+    out = obs['out']
+    degen = degenerate(obs['built']) or degenerate(obs['post'])
+    if degen:
+        rw = None
+    if rw == ['differs'] and (case.get('rw') or not has_extra(obs['built'])):
+        return 'secondary-trig rewriting: the model\'s rewritten tree differs from what doprint prints: %s' % sx(obs['post'])
+    if rw == ['unsupported'] and not has_extra(obs['built']):
+        return 'rewriting: model does not handle a tree without secondary trig functions'
+    if rep == ['unsupported']:
+        return None
+    if not isinstance(rep, list) or not rep:
+        return 'model reply malformed: %r' % (rep,)
+    if rep[0] == 'err':
+        if out.startswith('err:') and degen:
+            return None     # e.g. Mul(nan, x): `c < 0` raises TypeError before the printer can reject nan
+        return None if out == 'err:' + rep[1] else 'model raises %s, implementation gives %r' % (rep[1], out)
+    if out.startswith('err:'):
+        return 'implementation %s, model prints %r' % (out, str(rep[1][1]))
+    mstr, mshape, mok = str(rep[1][1]), plain(rep[2][1]), rep[3][1] == 'true'
+    if mstr != out:
+        return 'strings differ: implementation %r, model %r' % (out, mstr)
+    try:
+        pshape = py_shape(out)
+    except SyntaxError:
+        return None if not mok else 'PyOK holds for %r, which CPython does not parse' % out
+    if mok != (pshape == mshape):
+        return 'grammar model: PyOK=%s for %r but CPython parses it to %s, the model\'s tree is %s' % (
+            mok, out, sx(pshape).replace('\\', ''), sx(mshape).replace('\\', ''))
+    return None
+
+
+def nontrivial(case, obs):
+    t = obs.get('built')
+    return bool(t) and t[0] not in ('Symbol', 'Int', 'Rat', 'Float', 'Pi', 'E', 'True', 'False', 'Other', 'NaN')
+
+
+def tag(case, obs):
+    g = case.get('g', '?').split('/')[0].rstrip('TF')
+    if obs.get('built') is None:
+        return g + ':not-built'
+    return g + (':ValueError' if obs['out'].startswith('err:') else ':printed')
